@@ -167,7 +167,18 @@ pub fn oracle(c: &Corpus, _seed: u64, tier: &str) -> Vec<Report> {
                 Token::LParen | Token::LBracket | Token::LBrace => { if let Some(x) = stack.last_mut() { x.1 = true; } stack.push((false, false)) }
                 Token::Comma => { if let Some(x) = stack.last_mut() { x.0 = true; } }
                 Token::RParen | Token::RBracket | Token::RBrace => {
-                    if stack.pop() == Some((true, true)) { cands.insert((ri, "bracket")); }
+                    match stack.pop() {
+                        Some((true, true)) => { cands.insert((ri, "bracket")); }
+                        Some((true, false)) => {
+                            // numbers only: a list unless it is `{n,m}` or the modifier tuple of a data type
+                            let open = toks[..ri].iter().rposition(|x| matches!(x.token, Token::LParen | Token::LBracket | Token::LBrace)).unwrap_or(0);
+                            let is_brace = matches!(toks[open].token, Token::LBrace);
+                            let prev_word = toks[..open].iter().rev().find(|x| !is_ws(&x.token)).and_then(|x| match &x.token { Token::Word(w) => Some(w.value.clone()), _ => None });
+                            let is_type = prev_word.map(|w| matches!(guard(|| mk_parser(d, Opts::DEFAULT).try_with_sql(&format!("{w}(1)")).and_then(|mut p| { let t = p.parse_data_type()?; if p.peek_token().token != Token::EOF { return Err(sqlparser::parser::ParserError::ParserError("x".into())); } Ok(t) })), G::Val(Ok(t)) if !matches!(t, sqlparser::ast::DataType::Custom(..)))).unwrap_or(false);
+                            if !is_brace && !is_type { cands.insert((ri, "bracket")); }
+                        }
+                        _ => {}
+                    }
                 }
                 Token::Number(..) | Token::Whitespace(_) => {}
                 _ => { if let Some(x) = stack.last_mut() { x.1 = true; } }
